@@ -7,12 +7,14 @@ monitors that evaluate the property predicate on the real execution:
   B  c20_unwrap.py  stream.actor._unwrap_stream (+ http.download) <-> Untrusted/Unwrap.v
   C  c20_tags.py    audio.tags.convert_tags_to_track      <-> Untrusted/Tags.v
   D  c20_transcr.py the transcribed Python built-ins, each against the real one
+  E  c20_download.py internal.http.download's chunk loop   <-> Untrusted/Download.v
 """
 
 import logging
 
 from common import vlib
 
+import c20_download
 import c20_parse
 import c20_tags
 import c20_transcr
@@ -66,7 +68,7 @@ def directed_search(chk):
                 if mf:
                     return mf
         for seed in range(chk.seed + 1, chk.seed + 4):
-            for mod in (c20_parse, c20_unwrap, c20_tags):
+            for mod in (c20_parse, c20_unwrap, c20_tags, c20_download):
                 if cf["name"] not in mod.__name__:
                     continue
                 col = _Collector(seed)
@@ -100,6 +102,7 @@ def run(chk):
         "parse: byte strings (well-formed documents in 5 formats, their mutations, hot-token and random bytes); non-trivial = "
         "non-empty result, or an exception / oracle edge outcome (distinct by branch, result, oracle outcome); "
         "unwrap: random playlist graphs x clock scripts; non-trivial = at least one download happened, distinct by outcome and fetch log; "
+        "download: chunk timing scripts x timeouts (finite and endless bodies); non-trivial = at least two chunks pulled; "
         "tags: typed tag sets through convert_taglist + ill-typed dicts; non-trivial = raises, has an id the UUID parser rejects, "
         "a date-time tag or >= 4 relevant keys, distinct by tag set"
     )
@@ -126,3 +129,4 @@ def run(chk):
     c20_unwrap.run(chk)
     c20_tags.run(chk)
     c20_transcr.run(chk)
+    c20_download.run(chk)
